@@ -91,6 +91,21 @@ def signature(obs):
         return 'fail' if tag(obs) == 'err' else ('bad:' + str(tag(obs)))
     return tuple(sorted((f[1], find(f, 'hash')[1]) for f in obs[1:]))
 
+def generated_shadows_import(c):
+    """a module imports by name two items with the same last segment, one of them a generated <T>Vftable struct: which one the
+    name denotes changes at the moment the generated item is registered"""
+    gen = set()
+    for (mp, file, m) in modules_of(c):
+        for d in m_defs(m):
+            if def_is_type(d) and any(tag(s_) == 'vftable' for s_ in type_stmts(d)):
+                gen.add(tuple(mp + [def_name(d) + 'Vftable']))
+    for (mp, file, m) in modules_of(c):
+        us = m_uses(m)
+        for u in us:
+            if tuple(u) in gen and any(v != u and v[-1:] == u[-1:] for v in us):
+                return True
+    return False
+
 def mentions_generated_in_signature(c):
     for p, nd in all_nodes(c):
         if tag(nd) == 'fn':
@@ -179,6 +194,8 @@ def judge_all(cases, impl, model, tier):
             reason = 'C09/order-dependent'
             if mentions_generated_in_signature(c):
                 reason += '/generated-vftable-in-signature'
+            elif generated_shadows_import(c):
+                reason += '/generated-vftable-shadows-import'
             detail = '; '.join('%s: %s' % ('fail' if k == 'fail' else 'output#%d' % i, ','.join(v[:4])) for i, (k, v) in enumerate(sigs.items()))
             fs.append(Finding('O', reason, cid, detail[:600]))
             extra += [v for v in groups[cid] if v[1] in [x for vv in sigs.values() for x in vv[:2]]]
